@@ -9,7 +9,7 @@ LEVEL = "model_checking"
 META = {"explanation": "layer B groups decide the product for every bit pattern of the operands of one concrete shape; layer S groups are unbounded but only about shape/safety. The algebra of the Bodrato sequence above the split is NOT verified (stated in DESIGN.md).",
         "assumptions": ["Strassen-Winograd/Bodrato identity above the split: not machine-checked (only its shape/frame obligations are)",
                         "M4RM main loop (8 tables) only in the thorough tier and only in the scalar configuration"]}
-TUS = ["mzd", "mmc", "misc", "graycode", "brilliantrussian", "strassen", "mzp", "ple", "ple_russian", "triangular", "triangular_russian", "echelonform", "io", "djb", "debug_dump", "mp", "solve"]
+TUS = ["mzd", "mmc", "misc", "graycode", "brilliantrussian", "strassen", "mzp", "ple", "ple_russian", "triangular", "triangular_russian", "echelonform", "io", "djb", "debug_dump", "mp", "solve", "@libm"]
 FN = {"MUL_NAIVE": "mzd_mul_naive", "ADDMUL_NAIVE": "mzd_addmul_naive", "MUL_VA": "_mzd_mul_va", "ADDMUL_VA": "_mzd_mul_va (accumulate)", "MUL_M4RM": "mzd_mul_m4rm",
       "ADDMUL_M4RM": "mzd_addmul_m4rm", "MUL": "mzd_mul", "ADDMUL": "mzd_addmul"}
 
@@ -30,32 +30,35 @@ def mul_groups(tier, props=("C01", "C09", "C10", "C11", "C12")):
         gs.append(Group(gid="B.%s.%s" % (FN[mode].split(" ")[0] + ("_acc" if mode == "ADDMUL_VA" else ""), tag), props=list(props), harness="b_mul.c", function=FN[mode], layer="B", defines=d, tus=TUS,
                         assert_mode=True, unwind=unwind or (max(m, l, n, 64) + 6), config=config, bounded=True, bound_note="shape %s, all operand bits symbolic" % tag, shape=tag,
                         timeout=timeout if tier == "quick" else 3 * timeout, slots=slots, mem_gb=mem, supporting=supporting, solver="--sat-solver cadical"))
-    # cubic routes: n < 54 (transpose + parity kernel), n >= 54 (vector-times-matrix route)
-    add("MUL_NAIVE", 3, 70, 3, None)
-    add("MUL_NAIVE", 2, 65, 20, "view1", "view0", "owned")
+    # cubic routes: n < 54 (transpose + 64-way parity kernel; inner dimension <= 40: the AND/XOR parity circuit over two-word
+    # rows was measured intractable for SAT at l = 70), n >= 54 (vector-times-matrix route)
+    add("MUL_NAIVE", 2, 30, 3, None)
+    add("MUL_NAIVE", 2, 20, 20, "view1", "view0", "owned")
     add("MUL_NAIVE", 2, 65, 66, None, "owned", "view1")
-    add("ADDMUL_NAIVE", 3, 70, 3, "view1")
+    add("ADDMUL_NAIVE", 3, 30, 3, "view1")
     add("ADDMUL_NAIVE", 2, 10, 70, "owned", "view1", "view0")
     add("MUL_VA", 2, 70, 130, "owned")
     add("ADDMUL_VA", 2, 70, 130, "view1", "owned", "view0")
     # Four Russians: a_nr >= 16 and b_nc >= 54 reach the table code; tails only (a_nc < 8k)
-    add("MUL_M4RM", 16, 9, 64, None, k=2, timeout=900, slots=4, mem=24)
-    add("ADDMUL_M4RM", 16, 5, 64, "view1", k=2, timeout=900, slots=4, mem=24)
+    add("MUL_M4RM", 16, 5, 64, None, k=2, timeout=900, slots=2, mem=24)
+    add("MUL_M4RM", 16, 9, 64, None, k=2, timeout=900, slots=2, mem=24)
+    add("ADDMUL_M4RM", 16, 5, 64, "view1", k=2, timeout=900, slots=2, mem=24)
     # Strassen front end below the split (base case, incl. the copy-in/copy-out branch for views, and the squaring dispatch)
-    add("MUL", 3, 70, 20, None, cutoff=64)
+    add("MUL", 3, 30, 20, None, cutoff=64)
     add("MUL", 3, 20, 70, "view1", "view0", "owned", cutoff=0)
     add("ADDMUL", 2, 70, 66, "view1", "owned", "owned", cutoff=64)
     add("MUL", 12, 12, 12, None, square=True, cutoff=64)
     add("MUL", 12, 12, 12, "owned", square=True, cutoff=64)   # supplied destination with arbitrary prior content
+    add("ADDMUL", 12, 12, 12, "owned", square=True, cutoff=128)
     # row-block loop of the cubic kernel: block size 64 only under the sub-domain cache configuration (supporting)
     add("MUL_NAIVE", 64, 2, 3, None, config="tinyL3", supporting=True)
     add("MUL_NAIVE", 65, 2, 3, "owned", config="tinyL3", supporting=True)
-    add("ADDMUL", 12, 12, 12, "owned", square=True, cutoff=128)
     if tier == "thorough":
         add("MUL_M4RM", 16, 16, 64, None, k=2, config="scalar", timeout=3000, slots=8, mem=40)
         add("MUL_M4RM", 16, 9, 64, None, k=3, timeout=1800, slots=4, mem=24)
         add("MUL_M4RM", 17, 7, 65, "view1", k=2, timeout=1800, slots=4, mem=24)
-        add("MUL_NAIVE", 3, 70, 3, None, config="scalar")
+        add("MUL_NAIVE", 2, 30, 3, None, config="scalar")
+        add("MUL_NAIVE", 1, 70, 1, None, timeout=3000)
         add("MUL_VA", 2, 70, 130, "owned", config="scalar")
         add("MUL_NAIVE", 3, 130, 50, None)
     return gs
